@@ -81,6 +81,10 @@ def confirm(sc: Scratch, prep: dict, r: HarnessResult, log_dir: Path) -> dict:
             variants.append({**base, "env_profile": base["explicit_profile"]})
         # ... and with a relative configuration directory, under the working directory or in one of its ancestors
         variants += [{**v, "dir_mode": m} for v in list(variants) for m in ("relative", "ancestor")]
+        # ... and with the first key called like something that merely starts like the reserved PX_PROFILE
+        # (flat `profiles_dir`, nested `profiler.label`), once with the key defined in the environment only
+        env_only = {**base, "values": [[None, base["values"][0][1]], [None, base["values"][1][1]], [base["values"][2][0] if base["values"][2][0] is not None else 7, base["values"][2][1] if base["values"][2][1] is not None else 8]]}
+        variants += [{**v, "key_style": st} for v in (base, env_only) for st in ("profiles_dir", "profiler_label")]
         for script in variants:
             script = dict(script)
             script["_origin"] = {"harness": r.spec.name, "failed": role}
